@@ -9,7 +9,16 @@
 #include "common.h"
 #include "vsched.h"
 #include <eventpp/eventqueue.h>
+#include <eventpp/hetereventqueue.h>
 #include <memory>
+// W_HETER 1: HeterEventQueue with two prototypes (even / odd enqueue index) - the class carries its own copy of the queue logic
+// (enqueue, process, processOne, processIf, clearEvents, emptyQueue, wait, waitFor, DisableQueueNotify; no take / peek / processUntil).
+// Its queue-level mutexes, atomics and condition variable come from the Threading policy and are therefore scheduled; the inner
+// callback lists always use std::mutex / std::atomic (library limitation), so markers inside their critical sections are not
+// scheduling points there.
+#ifndef W_HETER
+#define W_HETER 0
+#endif
 #include <sstream>
 
 using namespace vf;
@@ -27,7 +36,13 @@ struct Payload
 };
 
 struct Pol { using Threading = eventpp::GeneralThreading<vs::Mutex, vs::Atomic, vs::CondVar>; };
+#if W_HETER == 1
+typedef eventpp::HeterEventQueue<int, eventpp::HeterTuple<void (const Payload &), void (const Payload &, int)>, Pol> Q;
+struct Dqn { Dqn(Q *) {} };      // HeterEventQueue has no DisableQueueNotify
+#else
 typedef eventpp::EventQueue<int, void (const Payload &), Pol> Q;
+typedef Q::DisableQueueNotify Dqn;
+#endif
 
 static Q * q;
 static int g_liveWorkers = 0;
@@ -47,6 +62,9 @@ static void pointHook(const char * tag)
 	size_t n = std::strlen(tag);
 	bool racy = n > 7 && std::strcmp(tag + n - 7, ".racy_r") == 0;
 	if(racy) { vs::S->point(tag); return; }
+#if W_HETER == 1
+	if(tag[0] == 'c') return;      // inside a critical section of an inner list: a real std::mutex is held, no switch, no lockset
+#endif
 	// structural access: no common policy mutex protects this structure any more (none held, or a different one than the other threads hold)
 	if(vs::g_lockset.access(tag, self()) && g_liveWorkers >= 2) {
 		evt("ua", self(), 0, 0, 0);
@@ -63,36 +81,59 @@ static void listener(const Payload & p)
 	vs::S->point("listener");
 	evt("rt", self() < 0 ? 9 : self(), p.uid, 0, 0);
 }
-struct PredIf { bool operator() (const Payload & p) const { vs::S->point("pred"); return (p.uid % 10) % 2 == 1; } };
+static void listener2(const Payload & p, int extra)
+{
+	evt("en", self() < 0 ? 9 : self(), p.uid, extra == p.uid + 1 ? p.v : -7, 0);
+	vs::S->point("listener");
+	evt("rt", self() < 0 ? 9 : self(), p.uid, 0, 0);
+}
+struct PredIf
+{
+	bool operator() (const Payload & p) const { vs::S->point("pred"); return (p.uid % 10) % 2 == 1; }
+	bool operator() (const Payload & p, int) const { vs::S->point("pred"); return (p.uid % 10) % 2 == 1; }
+};
 struct PredUntil { bool operator() (const Payload & p) const { vs::S->point("pred"); return (p.uid % 10) >= 2; } };
 
-static void runOp(int t, const std::string & op, int index, std::vector<std::unique_ptr<Q::DisableQueueNotify> > & dqn)
+static void runOp(int t, const std::string & op, int index, std::vector<std::unique_ptr<Dqn> > & dqn)
 {
 	vs::S->point("call");
 	if(op == "nq") {
 		int uid = (t + 1) * 10 + index;
 		evt("nqb", t, uid, uid, 0);
+#if W_HETER == 1
+		if(index % 2) { Payload p(uid, uid); q->enqueue(1, p, uid + 1); } else { q->enqueue(1, Payload(uid, uid)); }
+#else
 		if(index % 2) { Payload p(uid, uid); q->enqueue(1, p); } else { q->enqueue(1, Payload(uid, uid)); }
+#endif
 		evt("nqe", t, uid, 0, 0);
 	}
 	else if(op == "pa" || op == "po" || op == "pi" || op == "pu") {
 		int mode = op == "pa" ? 1 : op == "po" ? 2 : op == "pi" ? 3 : 4;
 		evt("pb", t, mode, 0, 0);
+#if W_HETER == 1
+		if(mode == 4) { std::fprintf(stderr, "no processUntil in HeterEventQueue\n"); std::exit(2); }
+		bool r = mode == 1 ? q->process() : mode == 2 ? q->processOne() : q->processIf(PredIf());
+#else
 		bool r = mode == 1 ? q->process() : mode == 2 ? q->processOne() : mode == 3 ? q->processIf(PredIf()) : q->processUntil(PredUntil());
+#endif
 		evt("pe", t, mode, 0, r ? 1 : 0);
 	}
+#if W_HETER == 0
 	else if(op == "tk" || op == "pk") {
 		evt(op == "tk" ? "tkb" : "pkb", t, 0, 0, 0);
 		int uid = 0, v = 0; bool r;
 		{ Q::QueuedEvent qe; r = op == "tk" ? q->takeEvent(&qe) : q->peekEvent(&qe); if(r) { uid = std::get<0>(qe.arguments).uid; v = std::get<0>(qe.arguments).v; } }
 		evt(op == "tk" ? "tke" : "pke", t, uid, v, r ? 1 : 0);
 	}
+#endif
 	else if(op == "cl") { evt("clb", t, 0, 0, 0); q->clearEvents(); evt("cle", t, 0, 0, 0); }
 	else if(op == "eq") { evt("eqb", t, 0, 0, 0); bool r = q->emptyQueue(); evt("eqe", t, 0, 0, r ? 1 : 0); }
 	else if(op == "w") { evt("wb", t, 0, 0, 0); q->wait(); evt("we", t, 0, 0, 1); }
 	else if(op == "wf") { evt("wb", t, 1, 0, 0); bool r = q->waitFor(std::chrono::milliseconds(1)); evt("we", t, 1, 0, r ? 1 : 0); }
-	else if(op == "don") { evt("donb", t, 0, 0, 0); dqn.emplace_back(new Q::DisableQueueNotify(q)); evt("done", t, 0, 0, 0); }
+#if W_HETER == 0
+	else if(op == "don") { evt("donb", t, 0, 0, 0); dqn.emplace_back(new Dqn(q)); evt("done", t, 0, 0, 0); }
 	else if(op == "dof") { evt("dofb", t, 0, 0, 0); if(! dqn.empty()) dqn.pop_back(); evt("dofe", t, 0, 0, 0); }
+#endif
 	else { std::fprintf(stderr, "unknown op %s\n", op.c_str()); std::exit(2); }
 }
 
@@ -122,13 +163,16 @@ static bool execute(vs::Strategy * strategy, long execNo)
 	g_livePayload = 0;
 	q = new Q();
 	q->appendListener(1, &listener);
+#if W_HETER == 1
+	q->appendListener(1, &listener2);
+#endif
 	g_liveWorkers = n;
 	std::vector<std::thread> threads;
 	for(int t = 0; t < n; ++t) {
 		threads.emplace_back([t]() {
 			vs::S->workerBegin(t);
 			{
-				std::vector<std::unique_ptr<Q::DisableQueueNotify> > dqn;
+				std::vector<std::unique_ptr<Dqn> > dqn;
 				int idx = 0;
 				for(const std::string & op : g_prog[t]) runOp(t, op, idx++, dqn);
 				// DisableQueueNotify objects the program left alive stay alive to the end of the execution (leaked on purpose)
